@@ -125,7 +125,7 @@ pub fn e1_single_statements(full: bool) -> Vec<PCase> {
 
 /// Strings for `.stringz`: every documented escape, an unknown escape, punctuation that is
 /// white space elsewhere, a 2-byte and a 3-byte (BMP) character, the empty string.
-pub const STRINGS: [&str; 12] = [
+pub const STRINGS: [&str; 17] = [
     "",
     "a",
     "ab",
@@ -138,6 +138,11 @@ pub const STRINGS: [&str; 12] = [
     "é",
     "→x",
     "x R1 #5 .fill",
+    "éa",
+    "aé",
+    "éé",
+    "a→b→",
+    "é\\n→",
 ];
 
 #[derive(Debug, Clone, Copy, PartialEq, Eq, Hash)]
